@@ -56,3 +56,23 @@ Theorem C12_transient_state_is_bracketed_in_the_source :
   flatten_flag_protected = true /\ treepath_protected = true /\ bracket_notes = [].
 Proof. repeat split; reflexivity. Qed.
 Print Assumptions C12_transient_state_is_bracketed_in_the_source.
+
+(* the '?'-leaf position with its try/finally bracket as a parameter (model/SourceShape.v): instantiated with what the
+   source says now the PyTree check IS the model's and leaves no position and no flatten mode behind; without the
+   finally a structured tree whose k-th leaf does not match leaves the position set (model witness) *)
+From JT Require Import model.SourceShape proofs.SourceShapeFacts.
+Theorem C12_check_as_in_source_is_the_model : forall st l sopt x s,
+  pytree_check_flags st treepath_protected l sopt x s = leafmatch st (LPyTree l sopt) x s.
+Proof. exact (fun st l sopt x s => pytree_check_flags_true st l sopt x s). Qed.
+Print Assumptions C12_check_as_in_source_is_the_model.
+
+Theorem C12_check_as_in_source_resets_transient_state : forall st l sopt x s vd s',
+  pytree_check_flags st treepath_protected l sopt x s = (vd, s') ->
+  (ps_flat s = false -> ps_flat s' = false) /\ (ps_path s = None -> ps_path s' = None).
+Proof. exact (fun st l sopt x s vd s' => pytree_check_flags_reset treepath_protected st l sopt x s vd s' eq_refl). Qed.
+Print Assumptions C12_check_as_in_source_resets_transient_state.
+
+Theorem C12_leaf_position_without_finally_refuted : exists st l sopt x s vd s',
+  pytree_check_flags st false l sopt x s = (vd, s') /\ ps_path s = None /\ ps_path s' <> None.
+Proof. exact leaf_position_without_finally_refuted. Qed.
+Print Assumptions C12_leaf_position_without_finally_refuted.
